@@ -61,7 +61,7 @@ Proof. vm_compute. auto 6. Qed.
    haystack) compute exactly these Spec functions: for every byte string,
    every rune / byte argument, every cut-over function and both values of
    NativeIndex. ---- *)
-From Strcase Require Import Impl Impl4 Impl5 Utf8Enc Instances.
+From Strcase Require Import Impl Impl4 Impl5 Utf8Enc Instances Refine_Last.
 
 (* indexRuneCase: the first code point equal to r (any r: ASCII, U+FFFD, invalid, multi-byte) *)
 Theorem C10_indexRuneCase : forall native cutover s r, wf s ->
@@ -82,6 +82,20 @@ Theorem C10_indexbyte_refines : forall native cutover s c, wf s -> 0 <= c < 256 
   Impl5.IndexByte native cutover s c = Ok (index_byte s c).
 Proof. exact indexbyte_refines121. Qed.
 Print Assumptions C10_indexbyte_refines.
+
+(* LastIndexByte: the last raw offset at which c (or, for a letter, either case, or for K k S s
+   the encoding of U+212A / U+017F) starts — and the model of the code computes it *)
+Theorem C10_last_index_byte_spec : forall s c,
+  (last_index_byte s c = -1 /\ forall p, (p < length s)%nat -> pat_at (byte_pats c) s p = false) \/
+  (exists p, (p < length s)%nat /\ last_index_byte s c = Z.of_nat p /\ pat_at (byte_pats c) s p = true /\
+             forall q, (p < q)%nat -> (q < length s)%nat -> pat_at (byte_pats c) s q = false).
+Proof. exact Refine_Last.last_index_byte_spec. Qed.
+Print Assumptions C10_last_index_byte_spec.
+
+Theorem C10_lastindexbyte_refines : forall s c, wf s -> 0 <= c < 256 ->
+  Impl5.LastIndexByte s c = Ok (last_index_byte s c).
+Proof. exact Refine_Last.lastindexbyte_refines. Qed.
+Print Assumptions C10_lastindexbyte_refines.
 
 Theorem C10_indexbyteascii_refines : forall s c, Impl5.IndexByteASCII s c = Ok (index_byte_ascii s c).
 Proof. reflexivity. Qed.
